@@ -1,6 +1,7 @@
 package rules
 
 import (
+	"go/token"
 	"golang.org/x/tools/go/ssa"
 
 	"gosqlxsa/core"
@@ -32,10 +33,33 @@ func isInputLoadOf(v ssa.Value) bool {
 func (m *munchModel) readLook(in ssa.Instruction, base string) int {
 	m.be.pathMode = true
 	defer func() { m.be.pathMode = false }()
-	rel := func(idx ssa.Value) (int, bool) {
+	isRuneSize := func(v ssa.Value) bool {
+		ex, ok := v.(*ssa.Extract)
+		if !ok || ex.Index != 1 {
+			return false
+		}
+		call, ok := ex.Tuple.(*ssa.Call)
+		if !ok {
+			return false
+		}
+		f := call.Call.StaticCallee()
+		return f != nil && core.FnPkg(f) != nil && core.FnPkg(f).Path() == "unicode/utf8"
+	}
+	var rel func(idx ssa.Value) (int, bool)
+	rel = func(idx ssa.Value) (int, bool) {
 		l := m.be.linOf(idx)
 		if l.ok && l.term == base {
 			return int(l.off), true
+		}
+		// base + k + size-of-a-decoded-rune: one character further
+		if bo, ok := idx.(*ssa.BinOp); ok && bo.Op == token.ADD {
+			for _, pair := range [][2]ssa.Value{{bo.X, bo.Y}, {bo.Y, bo.X}} {
+				if isRuneSize(pair[1]) {
+					if k, ok := rel(pair[0]); ok {
+						return k + 1, true
+					}
+				}
+			}
 		}
 		return 0, false
 	}
